@@ -32,7 +32,23 @@ def open_out(path):
 
 
 def emit(rec):
-    _out.write(json.dumps(rec, default=repr) + "\n")
+    try:
+        line = json.dumps(rec, default=srepr)
+    except ValueError:
+        line = json.dumps(_json_safe(rec), default=srepr)
+    _out.write(line + "\n")
+
+
+def _json_safe(x):
+    if isinstance(x, bool) or x is None or isinstance(x, (str, float)):
+        return x
+    if isinstance(x, int):
+        return x if abs(x) < 10 ** 300 else hex(x)
+    if isinstance(x, dict):
+        return dict((str(k), _json_safe(v)) for k, v in x.items())
+    if isinstance(x, (list, tuple)):
+        return [_json_safe(v) for v in x]
+    return srepr(x)
 
 
 def count(name, n=1):
@@ -60,8 +76,46 @@ def sample(obj):
         _samples.append(obj)
 
 
+class no_int_limit(object):
+    """Harness-side code (dis, repr of witnesses, json of records) runs without the interpreter's limit on the decimal
+    conversion of huge ints; the library under test always runs under the interpreter's default limit."""
+
+    def __enter__(self):
+        self.old = None
+        if hasattr(sys, "get_int_max_str_digits"):
+            self.old = sys.get_int_max_str_digits()
+            if self.old:
+                sys.set_int_max_str_digits(0)
+        return self
+
+    def __exit__(self, *a):
+        if self.old:
+            sys.set_int_max_str_digits(self.old)
+        return False
+
+
+def srepr(x):
+    """repr() that survives ints beyond the interpreter's decimal-string limit (they are shown in hex)."""
+    try:
+        return repr(x)
+    except ValueError:
+        with no_int_limit():
+            try:
+                r = repr(x)
+                return r if len(r) < 3000 else r[:3000] + "..."
+            except ValueError:
+                pass
+        if isinstance(x, int):
+            return hex(x)
+        if isinstance(x, (tuple, frozenset, list)):
+            return "%s(%s)" % (type(x).__name__, ", ".join(srepr(i) for i in x))
+        if hasattr(x, "__dataclass_fields__"):
+            return "%s(%s)" % (type(x).__name__, ", ".join("%s=%s" % (k, srepr(getattr(x, k))) for k in x.__dataclass_fields__))
+        return "<unprintable %s>" % type(x).__name__
+
+
 def short(x, n=400):
-    s = x if isinstance(x, str) else repr(x)
+    s = x if isinstance(x, str) else srepr(x)
     if len(s) > n:
         s = s[:n] + "...(%d chars)" % len(s)
     return s
@@ -102,6 +156,13 @@ def rng_for(seed, *parts):
 # ---------------------------------------------------------------------------
 # monitors: wrap a module global / class attribute with a post-condition
 
+def _monitor_error(label, where):
+    import traceback
+    count("monitor_errors")
+    if _counters.get("monitor_errors", 0) <= 5:
+        emit({"t": "monitor_error", "monitor": label, "where": where, "trace": traceback.format_exc()[-1500:]})
+
+
 class Monitor(object):
     """Post-condition wrapper. The condition observes; it never alters the call."""
 
@@ -132,18 +193,28 @@ class Monitor(object):
             count("calls:" + mon.label)
             snap = None
             if mon.pre is not None:
-                snap = mon.pre(a, k, mon.depth)
+                try:
+                    snap = mon.pre(a, k, mon.depth)
+                except Exception:
+                    _monitor_error(mon.label, "pre")
             mon.depth += 1
             try:
                 res = fn(*a, **k)
             except BaseException as e:
                 mon.depth -= 1
                 if mon.post is not None:
-                    mon.post(a, k, None, e, mon.depth, snap)
+                    try:
+                        mon.post(a, k, None, e, mon.depth, snap)
+                    except Exception:
+                        _monitor_error(mon.label, "post")
                 raise
             mon.depth -= 1
             if mon.post is not None:
-                mon.post(a, k, res, None, mon.depth, snap)
+                try:
+                    mon.post(a, k, res, None, mon.depth, snap)
+                except Exception:
+                    # a fault of the monitor must never look like behaviour of the library
+                    _monitor_error(mon.label, "post")
             return res
 
         wrapper.__wrapped__ = fn
@@ -229,7 +300,9 @@ def folded_instructions(code):
     """
     out = []
     start = None
-    for ins in dis.get_instructions(code):
+    with no_int_limit():
+        listing = list(dis.get_instructions(code))      # dis renders constants with repr()
+    for ins in listing:
         if start is None:
             start = ins.offset
         if ins.opcode == dis.EXTENDED_ARG:
@@ -278,7 +351,7 @@ def const_fp(v, nan_ident=False):
     if t is tuple:
         return ("tuple", tuple(const_fp(x, nan_ident) for x in v))
     if t is frozenset:
-        return ("frozenset", tuple(sorted((const_fp(x, nan_ident) for x in v), key=repr)))
+        return ("frozenset", tuple(sorted((const_fp(x, nan_ident) for x in v), key=srepr)))
     if t is CodeType:
         return ("code", code_fp(v, nan_ident))
     if t is str:
@@ -374,10 +447,11 @@ def code_brief(code):
 # ---------------------------------------------------------------------------
 # the repository under test
 
-def import_repo():
+def import_repo(json_only=False):
     import code_data  # noqa
-    from code_data import _code_data, _blocks, _line_mapping, _constants, _flags_data  # noqa
-    from code_data import _args, _normalize, _json_data  # noqa
+    if not json_only:
+        from code_data import _code_data, _blocks, _line_mapping, _constants, _flags_data  # noqa
+        from code_data import _args, _normalize, _json_data  # noqa
     here = os.path.realpath(os.path.dirname(code_data.__file__))
     want = os.path.realpath(os.path.join(os.environ.get("VERIF_REPO", "/repo"), "code_data"))
     if here != want:
